@@ -340,7 +340,7 @@ func (s *sess) stepMigrate() bool {
 	s.t.Helper()
 	pre := s.S.VerifSnapshot()
 	s.logf("step(migrate) [now=%d off=%d]", s.now, s.M.Offset)
-	if !s.S.S.VerifStep("migrate") {
+	if !world.Step(s.S.S, "migrate") {
 		s.checkPanics("rotation step")
 		s.fail("rotation loop did not complete the granted step")
 	}
@@ -363,7 +363,7 @@ func (s *sess) stepImpact() {
 	s.t.Helper()
 	s.logf("step(impact) [now=%d off=%d]", s.now, s.M.Offset)
 	pre := s.S.VerifSnapshot()
-	if !s.S.S.VerifStep("impact") {
+	if !world.Step(s.S.S, "impact") {
 		s.checkPanics("impact step")
 		s.fail("impact job did not complete the granted step")
 	}
